@@ -268,3 +268,16 @@ func CapsGood(tris [][3]model3d.Coord3D, lo, hi float64) []*model3d.Triangle {
 	}
 	return res
 }
+
+type chainRev []inv
+
+// clean:INVORDER an ascending counter walks the members backwards.
+func (c chainRev) Inverse() inv {
+	res := chainRev{}
+	last := len(c) - 1
+	for i := range c {
+		t := c[last-i]
+		res = append(res, t.Inverse())
+	}
+	return res
+}
